@@ -76,3 +76,11 @@ func VerifGraph() *VerifTables {
 
 	return t
 }
+
+// VerifBarrier returns once the listener has finished every callback handed to it before: the callback channel is
+// buffered, so cap+1 no-op messages are pushed through it (the listener handles them in order, one at a time).
+func (s *Service) VerifBarrier() {
+	for i := 0; i <= cap(s.callbackChannel); i++ {
+		s.callbackChannel <- &message{NextStateName: stateNameNoop}
+	}
+}
